@@ -25,6 +25,11 @@ def nm(v):
     return getattr(v, "name", None) or repr(v)
 
 
+def _symv(v):
+    from ..fdai import _sym
+    return _sym(v)
+
+
 def run(p, led, tier):
     res = Resolver(p)
     mem = p.cls("Membrane", MB)
@@ -63,7 +68,13 @@ def run(p, led, tier):
     # ---------------- R1/R4 Membrane
     def build(o, T, L1, L2, L3, rate=None):
         it = Interp(p, o)
-        it.stubs["ThreatSignature.matches"] = lambda interp, args, kwargs: Unknown(f"match({args[0].fields.get('pattern')})")
+        scanned = []
+
+        def _matches(interp, args, kwargs):
+            scanned.append(_symv(args[1]) if len(args) > 1 else "?")
+            return Unknown(f"match({args[0].fields.get('pattern')})")
+        it.stubs["ThreatSignature.matches"] = _matches
+        it.scanned_text = scanned
         it.stubs["ThreatSignature.__post_init__"] = lambda interp, args, kwargs: None
         m = it.instantiate(mem, [], dict(threshold=it.enum_member(TL, T), rate_limit=rate, silent=True, on_threat=None, enable_adaptive=True))
         m.fields["signatures"] = []          # drop the built-ins: the scan loop treats them like any other entry
@@ -80,7 +91,7 @@ def run(p, led, tier):
     def outcome(it, m, r, n_log_before):
         dec = {d[2]: d[3] for d in it.decisions}
         log = m.fields["_audit_log"]
-        return dict(allowed=r.fields["allowed"], level=nm(r.fields["threat_level"]), matched=[x.fields["pattern"] for x in r.fields["matched_signatures"]],
+        return dict(scanned=sorted(set(getattr(it, "scanned_text", []))), allowed=r.fields["allowed"], level=nm(r.fields["threat_level"]), matched=[x.fields["pattern"] for x in r.fields["matched_signatures"]],
                     dec=dec, log_delta=len(log) - n_log_before, logged_same=(len(log) > n_log_before and log[-1] is r),
                     remembered=any(isinstance(h, Unknown) and "content" in h.sym for h in m.fields["_blocked_hashes"]))
     cells = 0
@@ -113,6 +124,8 @@ def run(p, led, tier):
                         want_allowed = want_level < lv[T]
                         if unseen:
                             bad.append(f"signature store entry {unseen} is never consulted (T={T})")
+                        if r["scanned"] and r["scanned"] != ["content"]:
+                            bad.append(f"signatures are matched against {r['scanned']}, not the whole input text")
                         if r["allowed"] is not want_allowed:
                             bad.append(f"T={T} matched={[f'{a}:{b}' for a, b in hit]}: allowed={r['allowed']} but the statement requires {want_allowed}")
                         if lv.get(r["level"]) != want_level:
@@ -182,6 +195,45 @@ def run(p, led, tier):
                 led.fail("C10-R4", key, where(filt, filt.node), "a replay refusal is not appended to the audit trail")
             else:
                 led.ok("C10-R4", key, where(filt, filt.node), "replay refusals append their record")
+    # a store changed through the API *after* an input was admitted must be consulted the next time the same input arrives
+    for api in ("add_signature", "learn_threat", "import_antibodies", "set_threshold"):
+        def go_hist(o):
+            it, m, sig = build(o, "DANGEROUS", "SAFE", "SAFE", "SAFE")
+            m.fields["signatures"] = []
+            m.fields["_learned_patterns"].clear()
+            r1 = it.call_fi(filt, [m, sig], {})
+            if r1.fields["allowed"] is not True:
+                return None
+            new = it.instantiate(tsig, ["late", it.enum_member(TL, "CRITICAL"), "added later"], {})
+            if api == "add_signature":
+                it.call_fi(p.find_method(mem, api), [m, new], {})
+            elif api == "learn_threat":
+                it.call_fi(p.find_method(mem, api), [m, "late", it.enum_member(TL, "CRITICAL"), "added later"], {})
+            elif api == "import_antibodies":
+                it.call_fi(p.find_method(mem, api), [m, [new]], {})
+            else:
+                m.fields["signatures"] = [new]
+                it.call_fi(p.find_method(mem, api), [m, it.enum_member(TL, "SAFE")], {})
+            it.decisions.clear()
+            r2 = it.call_fi(filt, [m, sig], {})
+            dec = {d[2]: d[3] for d in it.decisions}
+            return dict(consulted="match(late)" in dec, matched=dec.get("match(late)"), allowed=r2.fields["allowed"])
+        paths = [r for _, r in explore(go_hist, max_paths=200) if r is not None]
+        key = f"Membrane.filter ▸ same input again after {api}()"
+        badh = []
+        for r in paths:
+            if api != "set_threshold":
+                if not r["consulted"]:
+                    badh.append("the newly registered signature is not consulted for an input that was admitted before")
+                elif r["matched"] and r["allowed"] is not False:
+                    badh.append("the new CRITICAL signature matches but the input is still admitted")
+            else:
+                if r["allowed"] is not False:
+                    badh.append("threshold lowered to SAFE but a previously admitted input is still admitted")
+        if badh:
+            led.fail("C10-R1", key, where(filt, filt.node), badh[0], witness="filter(x) admitted; import_antibodies([sig matching x]); filter(x) admitted again")
+        else:
+            led.ok("C10-R1", key, where(filt, filt.node), f"{len(paths)} path(s): the second decision reflects the changed rules")
     shrink = [(fi, k, n) for fi, k, n in package_attr_writes(p, "_blocked_hashes", None) if not k.endswith(":add") and not (fi.cls is mem and fi.name == "__init__")]
     key = "package ▸ replay memory only grows"
     if shrink:
@@ -192,7 +244,12 @@ def run(p, led, tier):
     # ---------------- R1 innate
     def go_in(o, s1, s2, thr, with_err):
         it = Interp(p, o)
-        it.stubs["TLRPattern.matches"] = lambda interp, args, kwargs: Unknown(f"match({args[0].fields.get('pattern')})")
+        scanned = []
+
+        def _matches(interp, args, kwargs):
+            scanned.append(_symv(args[1]) if len(args) > 1 else "?")
+            return Unknown(f"match({args[0].fields.get('pattern')})")
+        it.stubs["TLRPattern.matches"] = _matches
         it.stubs["TLRPattern.__post_init__"] = lambda interp, args, kwargs: None
         vcls = p.cls("LengthValidator", IN)
         it.stubs["LengthValidator.validate"] = lambda interp, args, kwargs: ((False, "too long") if with_err else (True, None))
@@ -207,7 +264,7 @@ def run(p, led, tier):
         except PyRaise as e:
             return dict(raised=repr(e.exc))
         dec = {d[2]: d[3] for d in it.decisions}
-        return dict(allowed=r.fields["allowed"], dec=dec, matched=[x.fields["pattern"] for x in r.fields["matched_patterns"]], errs=len(r.fields["structural_errors"]),
+        return dict(scanned=sorted(set(scanned)), allowed=r.fields["allowed"], dec=dec, matched=[x.fields["pattern"] for x in r.fields["matched_patterns"]], errs=len(r.fields["structural_errors"]),
                     infl=nm(r.fields["inflammation"].fields["level"]))
     badi, ncell = [], 0
     for s1 in (1, 3, 5):
@@ -227,6 +284,8 @@ def run(p, led, tier):
                         unseen = [pn for pn in ("q1", "q2") if f"match({pn})" not in r["dec"]]
                         if unseen:
                             badi.append(f"pattern {unseen} (added through the API) is never consulted")
+                        if r["scanned"] and r["scanned"] != ["content"]:
+                            badi.append(f"patterns are matched against {r['scanned']}, not the whole input text: a signature beyond the scanned part is missed")
                         must_block = any(s >= thr for s in hit) or with_err
                         if must_block and r["allowed"] is not False:
                             badi.append(f"severities matched {hit}, threshold {thr}, structural error {with_err}: allowed={r['allowed']}")
